@@ -333,3 +333,42 @@ func verifC08_Conc() {
 		verifCover("surplus-call-short-circuited")
 	}
 }
+
+// verifC08_ConcStale: two trials are admitted in the half-open episode and their results are
+// recorded concurrently, with minimumNumberOfCalls = 1: the first recorded result decides the
+// episode, the other one belongs to an earlier state and is ignored. Race detector on the
+// breaker (the stale-result check reads the state id that the deciding recorder changes).
+func verifC08_ConcStale() {
+	p := &Policy{FailureRateThreshold: 50, SlowCallRateThreshold: 100, SlidingWindowType: CountBased, SlidingWindowSize: 2,
+		PermittedNumberOfCallsInHalfOpen: 2, MinimumNumberOfCalls: 1, SlowCallDurationThreshold: time.Minute,
+		WaitDurationInOpen: time.Second}
+	vWallOnly = false
+	vMono = 0
+	nowFunc = vNow
+	cb := New(p)
+	verifRaceScopeDeep(cb, "CircuitBreaker")
+	_, id := cb.AcquirePermission()
+	cb.RecordResult(id, true, 0)
+	verifAssert(cb.State() == StateOpen, "opened")
+	vMono = int64(2 * time.Second)
+	ok1, t1 := cb.AcquirePermission()
+	ok2, t2 := cb.AcquirePermission()
+	verifAssert(ok1 && ok2 && t1 == t2, "two-trials-admitted")
+	f1, f2 := verifBool("trial1Fails"), verifBool("trial2Fails")
+	var wg sync.WaitGroup
+	wg.Add(2)
+	go func() { defer wg.Done(); cb.RecordResult(t1, f1, 0) }()
+	go func() { defer wg.Done(); cb.RecordResult(t2, f2, 0) }()
+	wg.Wait()
+	st := cb.State()
+	verifAssert(st == StateOpen || st == StateClosed, "half-open-episode-decided")
+	if !f1 && !f2 {
+		verifAssert(st == StateClosed, "all-trials-succeeded-closes")
+	}
+	if f1 && f2 {
+		verifAssert(st == StateOpen, "all-trials-failed-reopens")
+	}
+	if f1 != f2 {
+		verifCover("mixed-results-recorded-concurrently")
+	}
+}
